@@ -243,6 +243,7 @@ def renderedSize (fam : Family) (env : Env) (ori : Nat × Nat) (st : Stored) : E
 
 /-- a `set_cell_ratio` argument -/
 inductive RatioArg | value (r : F64) | fixed | dynamic
+  | bad (e : Err)   -- an argument the function rejects: a number ≤ 0 (`ValueError`) or a non-number (`TypeError`)
 deriving DecidableEq, Repr
 
 /-- `set_cell_ratio(ratio)`: the new `_cell_ratio`, or the exception.  (`AutoCellRatio.is_supported`
@@ -250,6 +251,7 @@ deriving DecidableEq, Repr
 def setCellRatio (env : Env) (a : RatioArg) : Except Err (Option F64) :=
   match a with
   | .value r => if r.isZero then .error .valueError else .ok (some r)
+  | .bad e => .error e          -- validation comes before the assignment: nothing is stored
   | .fixed =>
     match env.cell with
     | none => .error .termImageError
